@@ -16,8 +16,15 @@ claim("C01",
       "Not decided: sufficiency of the protocol, nested crashes, backend semantics, decoded document integrity.",
       "MIR must-pass-through / ordering on the CFG, Ok/Err edge dominance, path operand slicing to path constants, path-sensitive option correlation", "DESIGN §4 C01")
 
+claim("C03",
+      "Decides the page-end clause: the scan bound never reaches a callback (key-ordered early stop), recursive operand evaluation is unbounded, every limit-controlled early exit "
+      "sits in an id-ordered loop, success paths pass truncate/sort, entry points pass a constant direction, complexity validation first. Found and repaired one genuine defect "
+      "(fix: a8a23ed). It decides that structural part, not the value-level set algebra.",
+      "Trusted: rustc MIR; BTreeSet iterates ascending; sort_unstable+dedup gives an ascending duplicate-free list. Not decided: Eq/Between/Include semantics, complement correctness, fusion order.",
+      "MIR def-use taint of the bound into closure captures, constant-operand check on recursive calls, loop/iterator-source classification, must-pass-through", "DESIGN §4 C03")
+
 _pending = "rules for this property are not built yet in this round (see DESIGN §10 order of work); not claimed until they are"
-for pid in ["C02", "C03", "C04", "C05", "C07", "C08", "C09", "C10", "C11", "C12", "C13", "C14", "C15", "C16", "C17", "C18", "C19"]:
+for pid in ["C02", "C04", "C05", "C07", "C08", "C09", "C10", "C11", "C12", "C13", "C14", "C15", "C16", "C17", "C18", "C19"]:
     NA[pid] = _pending
 NA["C20"] = ("every clause is an algebraic law over runtime multisets of assertions (permutation invariance, monotone score fold, thresholds); "
              "no clause is visible in the shape of the code, so static analysis cannot decide it (DESIGN §6)")
